@@ -418,6 +418,20 @@ impl System for Sys {
                 let reg = &mut self.reg;
                 let r = self.rt.block_on(async { add_node(opts, reg, &os, VerbosityLevel::Minimal).await });
                 result_ok = r.is_ok();
+                // the command line does not save the registry after a failed add (the error propagates and the process
+                // exits), so what the next invocation loads is what add_node itself persisted: it must record every
+                // service that was installed and recorded in memory before the failure
+                if r.is_err() {
+                    match NodeRegistry::load(&self.reg.save_path) {
+                        Ok(l) => {
+                            if registry_json(&l) != registry_json(&self.reg) {
+                                let (on_disk, in_mem): (Vec<String>, Vec<String>) = (l.nodes.iter().map(|n| n.service_name.clone()).collect(), self.reg.nodes.iter().map(|n| n.service_name.clone()).collect());
+                                fails.push(Fail::new("registry-roundtrip", "after-failed-add", format!("{after_name} failed: the registry on disk records {on_disk:?}, the services installed and recorded before the failure are {in_mem:?}")));
+                            }
+                        }
+                        Err(e) => fails.push(Fail::new("registry-roundtrip", "load-failed", format!("{after_name} failed and the registry on disk does not load: {e:?}"))),
+                    }
+                }
                 if port_taken && (r.is_ok() || registry_json(&self.reg) != before) {
                     fails.push(Fail::new("port-conflict-refused", "plain", format!("{after_name}: a requested port is already recorded for another service, yet the add returned {:?} / changed the registry", r.as_ref().map(|_| ()).map_err(|e| e.to_string()))));
                 }
